@@ -49,6 +49,13 @@ def groups(tier):
     out += [('penalty[%d,%d]' % kn, ('penalty',) + kn) for kn in [(4, 2), (5, 1), (3, 3)]]
     out += [('argmin[%d]' % k, ('argmin', k)) for k in (2, 3, 4, 5)]
     out += [('richardson-estimate', ('rich',))]
+    # "a near-zero error estimate is never returned together with a wrong value": the value half of that sentence is the
+    # table contract of the vector classes (C03, C04), which the record groups above take as given -- discharged here too
+    from . import C03
+    for method in C03.METHODS:
+        out.append(('contract:jacobian-table[%s]' % method, ('dep', 'C03', 'run_jac', (method, C03.dims(tier), [2, 4] if method in ('central', 'forward', 'complex') else [2]), {})))
+    for klass in ('Hessian', 'Hessdiag'):
+        out.append(('contract:hessian-table[%s]' % klass, ('dep', 'C04', 'run_call', (klass, tier), {})))
     return out
 
 
@@ -253,6 +260,9 @@ def run_rich():
 
 
 def run_group(args):
+    if args[0] == 'dep':
+        import importlib
+        return getattr(importlib.import_module('props.' + args[1]), args[2])(*args[3], **args[4])
     if args[0] == 'record':
         return run_record(args[1], args[2])
     if args[0] == 'penalty':
@@ -265,6 +275,10 @@ def run_group(args):
 def replay_case(ob):
     import re
     nm = ob['name']
+    for pre, modname, orig in [('contract:jacobian-table[', 'C03', 'jac['), ('contract:hessian-table[', 'C04', 'call[')]:
+        if nm.startswith(pre):
+            import importlib
+            return importlib.import_module('props.' + modname).replay_case(dict(ob, name=orig + nm[len(pre):]))
     mm = re.search(r'record\[(\w+)\]/(\w+)', nm)
     if mm:
         return dict(kind='C02.record', klass=mm.group(1), method=mm.group(2), toggled='set-after' in nm)
